@@ -120,7 +120,13 @@ def shard(ctx, k, payload):
 
     def body(data):
         p = data.draw(scenario.personas())
-        bias = data.draw(st.sampled_from(['none', 'owes', 'refund', 'big_deductions', 'low_income_nc', 'apply_refund', 'credits_over_tax', 'interest_refund']))
+        bias = data.draw(st.sampled_from(['none', 'owes', 'refund', 'big_deductions', 'low_income_nc', 'apply_refund', 'credits_over_tax', 'interest_refund', 'nc_refund_with_use_tax']))
+        if bias == 'nc_refund_with_use_tax':
+            # an N.C. return that is overpaid and owes consumer use tax (line 18 > 0 separates line 17 from line 19)
+            p.update(forms=['1040', 'nc_d-400'], nc_withholding=True, withhold_share=0.5, use_tax=data.draw(st.sampled_from(['table', 'records'])),
+                     n_1098=max(1, p['n_1098']), n_w2=max(1, p['n_w2']))
+            if p['status'] == 'QSS':
+                p['status'] = 'Single'
         if bias == 'interest_refund':
             # a Form 1098 whose refund of overpaid interest (box 4) exceeds this year's interest and points
             p.update(itemize=True, n_1098=max(1, p['n_1098']), big_1098_refund=True)
@@ -190,7 +196,7 @@ def shard(ctx, k, payload):
 
 def run(ctx):
     quick = ctx.tier == 'quick'
-    n = 800 if quick else 30000
+    n = 1200 if quick else 30000
     shards = 16
     hyp.pmap(ctx, shard, [(n // shards, ctx.seed * 1000 + k) for k in range(shards)])
 
